@@ -13,6 +13,7 @@ NEGS = {"NEG_stop_ForcedReach.cfg": ["NEG_ForcedNeverCompletesWithLive"],       
         "NEG_stop_CompleteBeforeJoin.cfg": ["C06_NoDispatchAfterCompletion", "Steps"],
         "NEG_stop_TermIsForced.cfg": ["C06_SignalKinds"],
         "NEG_stop_AwaitsLastWorkerOnly.cfg": ["C06_GracefulWaits"],
+        "NEG_stop_WakeAcceptFirst.cfg": ["C06_GracefulLetsFinish"],      # defect F8: accept thread told to stop before the workers
         "NEG_stop_SecondStopHangs.cfg": ["temporal"]}
 
 
